@@ -17,6 +17,9 @@ R-C07-9  every / and % has a divisor that is a non-zero constant or tested
 R-C07-10 back()/front()/pop_back()/pop_front() on a standard sequence only
          where the container is known to be non-empty (test on every path, an
          append on every path, or a constructor-established class invariant)
+R-C07-11 (= R-C06-6) check_track_is_supported validates head, cylinder and data
+         size of every decoded sector (a sector of another size would overrun
+         the fixed-size sector buffer it is later copied into)
 """
 from ..runner import RuleResult
 from ..facts import AnalysisBroken
@@ -1220,10 +1223,12 @@ def rule_diagnosed_failures(prog, fixture=False):
 
 
 def run(ctx):
+    from . import c06
     prog = ctx.prog("dfs", "N")
     return [rule_throw_types(prog), rule_containment(prog), rule_exit_status(prog), rule_short_reads(prog),
             rule_reading_loops(prog), rule_alloc_taint(prog), rule_optional_access(prog), rule_divisors(prog),
-            rule_diagnosed_failures(prog), rule_nonempty_access(prog)]
+            rule_diagnosed_failures(prog), rule_nonempty_access(prog),
+            c06.rule_track_checks_unconditional(prog, rule_id="R-C07-11")]
 
 
 SELFTESTS = [
